@@ -135,6 +135,7 @@ func (r *vfC03Reader) Close()                     {}
 type vfC03Cfg struct {
 	thr     int
 	tgt     int
+	minor   int // target minor version (6.2: XGROUP CREATECONSUMER exists)
 	fnex    int
 	modaux  bool
 	restore bool
@@ -171,12 +172,20 @@ func b2i(b bool) int {
 	return 0
 }
 
+// tgtTok: the target version token of the ops ("7", "6.2")
+func (c vfC03Cfg) tgtTok() string {
+	if c.minor == 0 {
+		return strconv.Itoa(c.tgt)
+	}
+	return fmt.Sprintf("%d.%d", c.tgt, c.minor)
+}
+
 func (c vfC03Cfg) String() string {
 	f := c.flt
 	if f == nil {
 		f = &vfc03.FilterSpec{}
 	}
-	return fmt.Sprintf("%d %d %d %d %d %d %d %d %s %d %d %d %s", c.thr, c.tgt, c.fnex, b2i(c.modaux), b2i(c.restore), c.bulk, c.par, c.tdb, c.dbmapStr(), c.now, c.tick, b2i(c.rht), f.Tokens())
+	return fmt.Sprintf("%d %s %d %d %d %d %d %d %s %d %d %d %s", c.thr, c.tgtTok(), c.fnex, b2i(c.modaux), b2i(c.restore), c.bulk, c.par, c.tdb, c.dbmapStr(), c.now, c.tick, b2i(c.rht), f.Tokens())
 }
 
 // filterConfig is the configuration handed to the real RedisOutput.
@@ -246,6 +255,7 @@ func vfC03Send(t *testing.T, data []byte, c vfC03Cfg, pre []vfC03Pre) (tg *vfc03
 	synctest.Test(t, func(t *testing.T) {
 		tg = vfc03.NewTarget()
 		tg.Major = c.tgt
+		tg.Minor = c.minor
 		tg.Now = func() int64 { return time.Now().UnixMilli() }
 		tg.TickMs = int64(c.tick)
 		if c.tick > 0 {
@@ -276,7 +286,7 @@ func vfC03Send(t *testing.T, data []byte, c vfC03Cfg, pre []vfC03Pre) (tg *vfc03
 			Filter:                 c.filterConfig(),
 			Redis: config.RedisConfig{
 				Type:    config.RedisTypeStandalone,
-				Version: fmt.Sprintf("%d.0.0", c.tgt),
+				Version: fmt.Sprintf("%d.%d.0", c.tgt, c.minor),
 			},
 		})
 		ro.newRedisConn = func(context.Context) (redisclient.Redis, error) {
@@ -355,6 +365,9 @@ func TestVerifC03Replay(t *testing.T) {
 		c := vfC03Cfg{thr: vfutil.Pick(r, []int{1, 20, 100, 16 << 20}), tgt: vfutil.Pick(r, []int{4, 5, 6, 7, 8}),
 			fnex: r.Intn(3), modaux: r.Bool(), restore: r.Bool(), bulk: vfutil.Pick(r, []int{30, 120, 512 << 20}),
 			par: r.Range(1, 4), tdb: -1, now: now}
+		if c.tgt == 6 && r.Bool() {
+			c.minor = 2
+		}
 		if r.Chance(1, 2) {
 			// a clock that advances with every request (one lane, so that the instant each
 			// entry's replay starts is a function of the request count)
@@ -439,6 +452,18 @@ func TestVerifC03Replay(t *testing.T) {
 	randPre := func(ds *vfc03.Dataset, c vfC03Cfg) []vfC03Pre {
 		var pre []vfC03Pre
 		for _, k := range ds.Keys {
+			if k.Kind == "stream" && r.Chance(1, 3) {
+				// the re-sync case: the key already holds a STREAM whose last id lies above the
+				// snapshot's, with a group and a pending entry - a missed DEL shows as XADD "equal or
+				// smaller" / BUSYGROUP / surviving entries
+				top := fmt.Sprintf("%d-7", uint64(1)<<63+uint64(r.Intn(1000)))
+				pre = append(pre, vfC03Pre{c.mapDB(k.DB), c.dstKey(k.Key), &vfc03.Val{Kind: "stream", Stream: &vfc03.StreamVal{
+					Entries: []vfc03.SEntry{{ID: top, Fields: [][]byte{[]byte("old"), []byte("entry")}}}, LastID: top,
+					Groups: []vfc03.SGroup{{Name: []byte("oldgroup"), LastID: top, Consumers: [][]byte{[]byte("oldc")},
+						Pel: []vfc03.SNack{{ID: top, Consumer: []byte("oldc"), Time: "946684000000", Count: "1"}}}}}}})
+				s.Count("pre_existing_stream_with_group_at_a_stream_key")
+				continue
+			}
 			if r.Chance(1, 4) {
 				v := &vfc03.Val{Kind: "string", Str: []byte("old")}
 				if r.Bool() {
@@ -462,7 +487,14 @@ func TestVerifC03Replay(t *testing.T) {
 		var c vfC03Cfg
 		var ma, re, npre int
 		var dm string
-		fmt.Sscanf(strings.Join(f[1:11], " "), "%d %d %d %d %d %d %d %d %s %d", &c.thr, &c.tgt, &c.fnex, &ma, &re, &c.bulk, &c.par, &c.tdb, &dm, &c.now)
+		var tgtTok string
+		fmt.Sscanf(strings.Join(f[1:11], " "), "%d %s %d %d %d %d %d %d %s %d", &c.thr, &tgtTok, &c.fnex, &ma, &re, &c.bulk, &c.par, &c.tdb, &dm, &c.now)
+		if p := strings.SplitN(tgtTok, ".", 2); len(p) == 2 {
+			c.tgt, _ = strconv.Atoi(p[0])
+			c.minor, _ = strconv.Atoi(p[1])
+		} else {
+			c.tgt, _ = strconv.Atoi(tgtTok)
+		}
 		fmt.Sscanf(f[11], "%d", &c.tick)
 		c.rht = f[12] == "1"
 		flt, ferr := vfc03.ParseFilter(f[13:18])
@@ -494,7 +526,7 @@ func TestVerifC03Replay(t *testing.T) {
 	for i := 0; i < n; i++ {
 		ds := g.File(vfc03.FileOpts{MaxKeys: 6, Now: now, MultiDB: true, Reserved: true, Modules: true,
 			Huge: i == n/2 || (vfutil.Thorough() && i%500 == 7),
-			Many: map[int]string{n/3: "slpmany", 2*n/3: "hlpmany"}[i], Tagged: i%8 == 3, Versions: []int{6, 7, 8, 9, 10, 11, 12, 13}})
+			Many: map[int]string{n/3: "slpmany", 2*n/3: "hlpmany"}[i], Tagged: i%8 == 3, Streams: i%5 == 1, Versions: []int{6, 7, 8, 9, 10, 11, 12, 13}})
 		c := randCfg(ds)
 		c.flt = randFilter(ds)
 		if r.Chance(1, 4) || i%8 == 3 {
@@ -561,6 +593,9 @@ func TestVerifC03Replay(t *testing.T) {
 		s.Count(fmt.Sprintf("tick_%d", c.tick))
 		s.Count(fmt.Sprintf("rht_%d", b2i(c.rht)))
 		s.Add("restore_bad_data_format_fallbacks", tg.BadFormat)
+		// observation, not a verdict: pending ids whose entry is gone cannot be recreated by commands
+		s.Add("xclaim_for_an_id_that_is_not_an_entry_of_the_stream(no_pending_entry_created)", tg.XclaimNoEntry)
+		s.Add("xclaim_time_above_target_clock_clamped", tg.XclaimClamped)
 		if len(o.File) > 1<<20 {
 			s.Count("files_over_1MiB")
 		} else if len(o.File) > 16384 {
@@ -615,12 +650,31 @@ func TestVerifC03Replay(t *testing.T) {
 			continue
 		}
 		want := map[string]string{}
+		wantNoIdle := map[string]string{} // streams: the same without the consumers that own no pending entry
 		for _, p := range k.pre {
 			want[fmt.Sprintf("%d/%s", p.db, vfutil.Hex(p.key))] = p.val.Canon()
 		}
+		// the streams as the replay left them, before the monitor's normalisation blanks what the
+		// property does not name (svv op: compared verbatim with the Lean denotation StreamE.xval)
+		ordered := map[int]string{}
+		lastOf := map[string]int{} // target cell -> the last snapshot key replayed to it (a DB map may merge DBs)
+		for j, ek := range k.ds.Keys {
+			if c.flt.DbFiltered(ek.DB) || c.flt.KeyFiltered(ek.Key) {
+				continue
+			}
+			lastOf[fmt.Sprintf("%d/%s", c.mapDB(ek.DB), c.dstKey(ek.Key))] = j
+		}
+		for j, ek := range k.ds.Keys {
+			if lastOf[fmt.Sprintf("%d/%s", c.mapDB(ek.DB), c.dstKey(ek.Key))] != j {
+				continue
+			}
+			if v := tg.DBs[c.mapDB(ek.DB)][string(c.dstKey(ek.Key))]; v != nil && v.Kind == "stream" {
+				ordered[j] = vfc03.OrderedStream(v.Stream)
+			}
+		}
 		for _, ek := range k.ds.Keys {
 			v := tg.DBs[c.mapDB(ek.DB)][string(c.dstKey(ek.Key))]
-			vfc03.NormalizeStream(ek.Val, v, c.tgt)
+			vfc03.NormalizeStream(ek.Val, v, c.tgt, c.minor)
 			if c.flt.DbFiltered(ek.DB) || c.flt.KeyFiltered(ek.Key) {
 				continue
 			}
@@ -688,11 +742,41 @@ func TestVerifC03Replay(t *testing.T) {
 				e := *ek.Val
 				e.ExpAt = int64(ek.ExpireAt)
 				want[id] = e.Canon()
+				if ek.Kind == "stream" {
+					alt := *e.Stream
+					alt.Groups = append([]vfc03.SGroup{}, alt.Groups...)
+					for gi := range alt.Groups {
+						alt.Groups[gi].Consumers = alt.Groups[gi].ConsumersWithPending
+					}
+					e.Stream = &alt
+					wantNoIdle[id] = e.Canon()
+				}
+				// streams: the logical value the THEOREM ends in (Lean StreamE.xval, stream_roundtrip /
+				// full_sync_streams) against what the real replay left in the target double - entries,
+				// last id, counters, groups in creation order, pending entries in XCLAIM order ("svv" op)
+				if ek.Kind == "stream" && v != nil && v.Kind == "stream" {
+					for _, cn := range ek.Val.Shape.Counters() {
+						s.Count("replayed_" + cn)
+					}
+					if _, mine := ordered[j]; !mine {
+						s.Count("stream_cell_overwritten_by_later_key")
+					} else if o.Keys[j].Sound {
+						top("svv", fmt.Sprintf("%s %s", c.tgtTok(), ek.ObjDesc), []string{"val " + ordered[j]})
+						s.Count("svv_stream_values_vs_spec")
+					} else {
+						s.Count("stream_not_sound_skipped")
+					}
+				}
 			}
 		}
 		for id, w := range want {
 			if gv, ok := got[id]; !ok {
 				s.Violate("key-missing", "snapshot key not on the target: "+id, replay)
+			} else if alt, ok := wantNoIdle[id]; gv != w && ok && gv == alt {
+				// everything is there except consumers with an EMPTY pending list: the tool emits no XGROUP
+				// CREATECONSUMER (known finding C03-F1; the RESTORE path and Redis' AOF rewrite keep them)
+				rp := map[string]interface{}{"op": replay["op"], "cause": "consumer-with-empty-pel-not-recreated-on-expansion-path"}
+				s.Violate("stream-idle-consumer-dropped", fmt.Sprintf("%s: target has %.300s, dataset has %.300s", id, gv, w), rp)
 			} else if gv != w {
 				s.Violate("value-differs", fmt.Sprintf("%s: target has %.300s, dataset has %.300s", id, gv, w), replay)
 			}
